@@ -93,6 +93,24 @@ def generate(rng, n, tier="quick"):
                {"op": "render", "reg": 0, "api": "render", "name": "main", "data": enc(d)}]
         case = {"kind": "session", "regs": [{"escape": "html"}], "ops": ops, "id": "%s-else%02d" % (ID, k)}
         out.append((case, {"mode": "ast", "strict": list(exp), "loose": ["must", "[ ]" if "}} {{" in tpl else "[]"]}))
+    # directed: values that are PRESENT but null / false / 0 / empty are values: `lookup` of such a key or index, a path to it, `with` / `if`
+    # / `each` with an else on it render in strict mode as they do in non-strict mode
+    dn = {"m": {"k": None, "f": False, "z": 0, "e": "", "a": [], "o": {}}, "l": [None, False, 0, ""]}
+    kn = 0
+    for tpl, exp in [("[{{lookup m \"k\"}}]", "[]"), ("[{{lookup m \"f\"}}|{{lookup m \"z\"}}|{{lookup m \"e\"}}]", "[false|0|]"), ("[{{lookup l 0}}|{{lookup l 1}}|{{lookup l 2}}]", "[|false|0]"),
+                     ("[{{m.k}}|{{m.f}}|{{l.0}}|{{l.[3]}}]", "[|false||]"), ("[{{#if (lookup m \"k\")}}T{{else}}F{{/if}}]", "[F]"),
+                     ("[{{#with (lookup m \"k\")}}T{{else}}F{{/with}}]", "[F]"), ("[{{#each m}}{{lookup ../m @key}},{{/each}}]", "[[],,false,,[object],0,]"),
+                     ("[{{lookup (lookup m \"o\") \"x\"}}]", None), ("[{{len (lookup m \"k\")}}]", "[0]")]:
+        ops = [{"op": "reg_string", "reg": 0, "name": "main", "src": tpl},
+               {"op": "render", "reg": 0, "api": "render", "name": "main", "data": enc(dn)},
+               {"op": "set_strict", "reg": 0, "v": True},
+               {"op": "render", "reg": 0, "api": "render", "name": "main", "data": enc(dn)}]
+        case = {"kind": "session", "regs": [{"escape": "none"}], "ops": ops, "id": "%s-nullkey%02d" % (ID, kn)}
+        kn += 1
+        if exp is None:
+            out.append((case, {"mode": "ast", "strict": ["musterr", ["MissingVariable"]], "loose": ["must", "[]"]}))
+        else:
+            out.append((case, {"mode": "ast", "strict": ["must", exp], "loose": ["must", exp]}))
     # directed: more `../` than enclosing scopes (outside the quantifier of C01 – what such a path designates is not stated; the crate
     # and the model are compared, and the strict / non-strict relation is checked): the key present in the innermost scope only,
     # at the root only, in both, in neither; one and two scopes; as a value, a block argument, a helper argument
